@@ -36,24 +36,30 @@ inductive DfsErr
   | fuel
   deriving Repr, Inhabited
 
-mutual
-  /-- `toposort_recursive` (graph.rs:47-74) -/
-  def Graph.visit (g : Graph) : Nat → Nat → List Nat → DfsSt → Except DfsErr DfsSt
-    | 0, _, _, _ => .error .fuel
-    | fuel+1, n, branch, st =>
-      if branch.contains n then .error (.cycle (branch ++ [n]))
-      else if st.visited.contains n then .ok st
-      else
-        match Graph.visitList g fuel (g.succ n) (branch ++ [n]) { st with visited := n :: st.visited } with
-        | .error e => .error e
-        | .ok st' => .ok { st' with rorder := n :: st'.rorder }
-  def Graph.visitList (g : Graph) : Nat → List Nat → List Nat → DfsSt → Except DfsErr DfsSt
-    | _, [], _, st => .ok st
-    | fuel, m :: ms, branch, st =>
-      match Graph.visit g fuel m branch st with
+/-- the loop `for neighbor in neighbors { self.toposort_recursive(neighbor, …)? }`, with the
+    recursive call abstracted (keeps the recursion on the fuel structural, so that concrete
+    graphs reduce in the kernel) -/
+def visitListWith (f : Nat → List Nat → DfsSt → Except DfsErr DfsSt) :
+    List Nat → List Nat → DfsSt → Except DfsErr DfsSt
+  | [], _, st => .ok st
+  | m :: ms, branch, st =>
+    match f m branch st with
+    | .error e => .error e
+    | .ok st' => visitListWith f ms branch st'
+
+/-- `toposort_recursive` (graph.rs:47-74) -/
+def Graph.visit (g : Graph) : Nat → Nat → List Nat → DfsSt → Except DfsErr DfsSt
+  | 0, _, _, _ => .error .fuel
+  | fuel+1, n, branch, st =>
+    if branch.contains n then .error (.cycle (branch ++ [n]))
+    else if st.visited.contains n then .ok st
+    else
+      match visitListWith (Graph.visit g fuel) (g.succ n) (branch ++ [n]) { st with visited := n :: st.visited } with
       | .error e => .error e
-      | .ok st' => Graph.visitList g fuel ms branch st'
-end
+      | .ok st' => .ok { st' with rorder := n :: st'.rorder }
+
+def Graph.visitList (g : Graph) (fuel : Nat) : List Nat → List Nat → DfsSt → Except DfsErr DfsSt :=
+  visitListWith (g.visit fuel)
 
 /-- all node names occurring in the graph (keys and targets) -/
 def Graph.allNodes (g : Graph) : List Nat := g.keys ++ g.adj.flatMap (·.2)
